@@ -1,5 +1,6 @@
 import DcmVerif.Generated.Code_insert
 import DcmVerif.Proofs.Code_values
+import DcmVerif.Proofs.KeyDictLemmas
 /-! The per-key dictionary edits of merges (`_change_class`, `_insert_slice`, `_insert_non_slice`, `_insert_sample`) as translated
 from dcmmeta.py are the per-key model's (`changeClassK`, `insertSliceK`, `insertNonSliceK`, `insertSampleK`). -/
 set_option autoImplicit false
@@ -9,31 +10,6 @@ open Cls
 
 namespace Src
 variable {α κ : Type}
-
-/-- a key state as the classification dictionaries see it: no class, or exactly one, holds the key -/
-def toDict : KeyState α → KeyDict α
-  | none => []
-  | some (c, v) => [(c, v)]
-
-theorem valuesAndClass_nil (valid : List Cls) : KeyDict.valuesAndClass valid ([] : KeyDict α) = none := by
-  induction valid with
-  | nil => rfl
-  | cons x xs ih => simp [KeyDict.valuesAndClass, List.findSome?_cons] at ih ⊢
-
-theorem valuesAndClass_single (valid : List Cls) (c : Cls) (v : List α) (h : c ∈ valid) :
-    KeyDict.valuesAndClass valid [(c, v)] = some (c, v) := by
-  induction valid with
-  | nil => simp at h
-  | cons x xs ih =>
-    by_cases hx : x = c
-    · subst hx; simp [KeyDict.valuesAndClass, List.findSome?_cons, List.find?]
-    · have hm : c ∈ xs := by
-        rcases List.mem_cons.mp h with h1 | h1
-        · exact absurd h1.symm hx
-        · exact h1
-      have hne : (c == x) = false := by simpa using (fun h' => hx h'.symm)
-      simp [KeyDict.valuesAndClass, List.findSome?_cons, List.find?, hne] at ih ⊢
-      exact ih hm
 
 theorem changeClassK_shape [DecidableEq α] (null : α) (sh : Shp) (ks : KeyState α) (new : Cls) :
     changeClassK null sh ks new =
